@@ -163,10 +163,12 @@ def _timed(fn):
 
 
 @_timed
-def run_model(lines, timeout=1800, line_timeout=120):
+def run_model(lines, timeout=3600, line_timeout=900):
     """All lines through the extracted model (sharded over cores).  One answer per line; a line on which the model
     process dies or stalls is answered 'modelcrash ...' / 'modeltimeout' and the rest of its shard is run in a fresh
-    process, so one bad line never takes other answers with it.  Each process is capped at 3 GB."""
+    process, so one bad line never takes other answers with it.  Each process is capped at 3 GB.  line_timeout only has
+    to catch a model that does not answer at all: the slowest legitimate line (a document with 16 500 distinct symbols
+    through the list-based symbol table) takes 35 s alone and several times that on a loaded machine."""
     if not lines:
         return []
     import threading
